@@ -633,6 +633,90 @@ NS_PRIMITIVE_FUNCS = """@read a.double x:int = Int;
 """
 
 
+INTERLEAVED_LINES = """shape.circle r:int = shape.Shape;
+color.color c:int = color.Color;
+shape.square s:int = shape.Shape;
+il.a1 = il.A;
+il.b1 x:int = il.B;
+il.a2 y:string = il.A;
+il.b2 = il.B;
+il.a3 {t:Type} z:t = il.P t;
+il.c = il.C;
+il.a4 {t:Type} = il.P t;
+"""
+SPLIT_SECTION_TAIL = """---types---
+shape.tri a:int b:int = shape.Shape;
+il.b3 q:long = il.B;
+"""
+
+
 def edge_ns_primitives_schema():
-    """fixed schema: namespaced constructors and functions whose local name is / starts with a builtin name"""
-    return TLO_HEADER + NS_PRIMITIVE_LINES + "---functions---\n" + NS_PRIMITIVE_FUNCS
+    """fixed schema: namespaced constructors and functions whose local name is / starts with a builtin name; unions whose
+    constructors are interleaved with other types' constructors and continued in a second ---types--- section"""
+    return TLO_HEADER + NS_PRIMITIVE_LINES + INTERLEAVED_LINES + "---functions---\n" + NS_PRIMITIVE_FUNCS + SPLIT_SECTION_TAIL
+
+
+def interleave_unions(text, rng, p=0.75, skip=("Bool", "Maybe")):
+    """Post-process a one-declaration-per-line TL1 schema: constructors of a union need not be adjacent.  For most unions one
+    constructor is moved behind constructors of other types (interleaving) or into a second ---types--- section at the end
+    of the file (a union split across sections).  Returns (text, number of moved constructors)."""
+    import re
+    lines = text.split("\n")
+    in_types = True
+    groups = {}
+    ctor_idx = []
+    for i, l in enumerate(lines):
+        t = l.strip()
+        if t == "---functions---":
+            in_types = False
+        elif t == "---types---":
+            in_types = True
+        elif in_types and t and not t.startswith(("@", "//")) and "=>" not in t and t.endswith(";") and "?" not in t.split("=")[0].split(" ")[0]:
+            m = re.search(r"=\s*([A-Za-z_][\w.]*)[^=;]*;$", t)
+            if m and " ? " not in t:
+                groups.setdefault(m.group(1), []).append(i)
+                ctor_idx.append(i)
+    moved_tail, moves = [], 0
+    relocate = {}     # line index -> insert after this line index
+    for tn, idxs in groups.items():
+        if len(idxs) < 2 or tn in skip or rng.random() > p:
+            continue
+        victim = idxs[-1]
+        later = [j for j in ctor_idx if j > victim and j not in idxs]
+        k = rng.random()
+        if k < 0.5 and later:
+            relocate[victim] = rng.choice(later)
+        elif k < 0.8 or not later:
+            moved_tail.append(lines[victim])
+            relocate[victim] = None
+        else:
+            # move the FIRST constructor behind another type's constructor that precedes the rest of the union
+            first = idxs[0]
+            mid = [j for j in ctor_idx if first < j and j not in idxs]
+            if mid:
+                relocate[first] = rng.choice(mid)
+            else:
+                continue
+        moves += 1
+    out = []
+    after = {}
+    for v, tgt in relocate.items():
+        if tgt is not None:
+            after.setdefault(tgt, []).append(lines[v])
+    for i, l in enumerate(lines):
+        if i in relocate:
+            continue
+        out.append(l)
+        for x in after.get(i, []):
+            out.append(x)
+    # a relocated line whose target was itself relocated
+    placed = set(x for l in after.values() for x in l)
+    emitted = set(out)
+    for x in placed:
+        if x not in emitted:
+            moved_tail.append(x)
+    if moved_tail:
+        while out and out[-1] == "":
+            out.pop()
+        out += ["---types---"] + moved_tail
+    return "\n".join(out) + "\n", moves
